@@ -784,6 +784,30 @@ pub fn c13(rec: &mut Rec, lm: &Landmarks, rng: &mut Rng, thorough: bool) {
             total_ev(m.rec, "format_str", &t, Some(f), r);
         }
     }
+    // all-numeric formats x (date, time of day) grids around the sixtieth second and the ends of the ranges: a sentence
+    // whose time of day does not exist on that date (second 60 anywhere but at 23:59 of a day that ends in an inserted
+    // second) must be an error, whatever the order of the tokens and whether the date is a day of the month or of the year
+    {
+        let nfmts = ["%Y-%m-%dT%H:%M:%S", "%Y-%jT%H:%M:%S", "%j %Y %H:%M:%S", "%H:%M:%S %Y-%j", "%Y-%m-%d %H:%M:%S.%f", "%S:%M:%H %d/%m/%Y", "%Y/%j %S.%M.%H", "%Y-%j %H:%M"];
+        let dates: [(i32, u8, u8, u16); 7] = [(2023, 4, 10, 100), (2016, 12, 31, 366), (2016, 12, 30, 365), (2015, 6, 30, 181), (2017, 1, 1, 1), (1971, 12, 31, 365), (2023, 12, 31, 365)];
+        let times: [(u8, u8, u8); 9] = [(12, 0, 60), (23, 59, 60), (0, 0, 60), (23, 59, 59), (23, 58, 60), (24, 0, 0), (23, 60, 0), (23, 59, 61), (0, 59, 60)];
+        for f in nfmts {
+            for (y, mo, d, j) in dates {
+                for (hh, mi, ss) in times {
+                    let t = f
+                        .replace("%Y", &format!("{y:04}"))
+                        .replace("%m", &format!("{mo:02}"))
+                        .replace("%d", &format!("{d:02}"))
+                        .replace("%j", &format!("{j:03}"))
+                        .replace("%H", &format!("{hh:02}"))
+                        .replace("%M", &format!("{mi:02}"))
+                        .replace("%S", &format!("{ss:02}"))
+                        .replace("%f", "000000000");
+                    fmt_parse_ev(&mut m, f, &t);
+                }
+            }
+        }
+    }
     // single and double mutations of every skeleton
     let rounds = if thorough { 400 } else { 22 };
     for _ in 0..rounds {
@@ -1103,6 +1127,13 @@ pub fn c19(rec: &mut Rec, lm: &Landmarks, rng: &mut Rng, thorough: bool) {
                     v.push(format!("%d %Y {t}, %b"));
                 }
             }
+        }
+        // two separator characters after a token, before every kind of next token (numeric, name, time scale)
+        for (s1, s2) in [(".", "-"), (" ", "("), ("-", "-"), (";", ","), ("/", "_"), (",", " "), (":", ":"), ("_", ".")] {
+            v.push(format!("%d{s1}{s2}%B{s1}{s2}%Y %H:%M:%S.%f"));
+            v.push(format!("%Y-%m-%d %H:%M:%S.%f{s1}{s2}%A"));
+            v.push(format!("%a{s1}{s2}%d{s1}{s2}%b{s1}{s2}%Y{s1}{s2}%H{s1}{s2}%M{s1}{s2}%S"));
+            v.push(format!("%Y{s2}{s1}%m{s2}{s1}%d{s2}{s1}%H{s2}{s1}%M{s2}{s1}%S{s2}{s1}%f{s2}{s1}%T"));
         }
         v
     };
